@@ -140,5 +140,6 @@ pub fn run(ctx: &Ctx) {
         expect_accept(ctx, P, "field-relations", i, &format!("{kname},relation={}", label.split(':').next().unwrap()), &text, tx, &keys()[0], &curve);
     });
     foreign_members(ctx, P, "foreign-members");
+    crate::hist::long_runs(ctx, P, "transaction-long-runs", "Transaction from JSON, sign, encode: a long run on one fresh thread", if ctx.quick() { 40 } else { 300 }, crate::hist::c06_nth());
 }
 fn kind_label(k: Kind) -> &'static str { match k { Kind::Legacy => "legacy", Kind::Eip2930 => "eip2930", Kind::Eip1559 => "eip1559" } }
